@@ -40,6 +40,7 @@ partial def parseV (ps : PS) : Sexp → Option (V × PS)
     let kd ← kindOf k
     let e ← enc.str?
     let d ← disp.str?
+    if !canonLeaf kd e then none      -- e.g. a Timespan payload that is not the default format of a duration
     let v := V.leaf id kd e d
     some (v, { ps with defined := (id, v) :: ps.defined })
   | .list [.atom "sn", i, x] => do
